@@ -84,6 +84,11 @@ func (cfg *Configuration) execHook(rl *release.Release, hook release.HookEvent, 
 		if _, err := cfg.KubeClient.Create(resources); err != nil {
 			h.LastRun.CompletedAt = helmtime.Now()
 			h.LastRun.Phase = release.HookPhaseFailed
+			// The hooks that already ran to success are finished whatever happens next:
+			// honour their hook-succeeded policy, as is done when a later hook's watch fails.
+			if errDeleting := cfg.deleteHooksByPolicy(executingHooks[0:i], release.HookSucceeded, waitStrategy, timeout); errDeleting != nil {
+				log.Printf("error deleting succeeded hooks after a hook could not be created: %v", errDeleting)
+			}
 			return errors.Wrapf(err, "warning: Hook %s %s failed", hook, h.Path)
 		}
 
